@@ -568,9 +568,11 @@ class _Sub:
 
 
 @op('dwarf_again')
-def dwarf_again(ctx, inner):
+def dwarf_again(ctx, inner, relocate=None, follow=None):
+    """Another get_dwarf_info() on the same ELFFile - optionally with other arguments than the calls before it - and one
+    op on the object it returns."""
     ctx.dw_count += 1
-    ok, d = call(ctx.fresh_dw, 'again%d.' % ctx.dw_count)
+    ok, d = call(ctx.fresh_dw, 'again%d.' % ctx.dw_count, relocate, follow)
     if not ok:
         yield d
         return
